@@ -134,7 +134,10 @@ class P(Prop):
                 nb = set(c.graph.predecessors(node)) if pin in bb.input_set else set(c.graph.successors(node))
                 want = set() if net in (None, "__omit__") else {net}
                 if nb != want:
-                    self.fail("search", "verilog-bb-pin" + self.synth_clash(m), f"pin {node} attached to {sorted(nb)}, netlist says {sorted(want)}", case)
+                    # the net named on THIS pin is one of the reader's reserved constant names: K8d, whatever else the
+                    # module contains
+                    tag = ":net-named-tie" if net in ("tie_0", "tie_1", "tie_x") else self.synth_clash(m)
+                    self.fail("search", "verilog-bb-pin" + tag, f"pin {node} attached to {sorted(nb)}, netlist says {sorted(want)}", case)
                     return
         free = m.free_names()
         if len(free) > 7 or c.is_cyclic():
